@@ -32,7 +32,13 @@
 (***************************************************************************)
 EXTENDS Integers, Sequences, FiniteSets, TLC, Json
 
-CONSTANTS G0,        \* height of the trusted genesis header
+CONSTANTS Mode,      \* "chain": the handler looks the header up in the tracked canonical chain (eth, bsc, heco, hsc,
+                     \*          msc, pixiechain, bor, bytom); "header": the claim carries the header and the handler
+                     \*          checks its seals against the tracked validator set (quorum) - then G0 is the height of
+                     \*          the tracked validator set, "canon" means "sealed by the validators", "fork" "sealed by
+                     \*          an outsider", "unknown" "proposer seal only, no committed seals", and there is no
+                     \*          confirmation rule
+          G0,        \* height of the trusted genesis header
           Best,      \* height of the canonical head
           Wait,      \* BlocksToWait of the side chain (>= 1)
           ForkAt,    \* height of the stored non-canonical header
@@ -107,7 +113,7 @@ Rows == [h : Heights, w : Worlds, ak : AcctKinds, sk : StorKinds, m : Msgs]
 \* the state the prover generates proofs from
 ProverState(r) == IF r.w = "fork" THEN ForkState
                   ELSE IF r.w = "unknown" THEN UnknownState
-                  ELSE IF r.h \in G0..Best THEN CanonState(r.h) ELSE CanonState(Best)
+                  ELSE IF r.h \in G0..Best \/ Mode = "header" THEN CanonState(r.h) ELSE CanonState(Best)
 
 Claim(r) ==
     LET S    == ProverState(r)
@@ -122,16 +128,17 @@ Claim(r) ==
         sn   == CASE r.sk = "garbage"   -> Path(st, slot) \cup {Garbage}
                   [] r.sk = "truncated" -> Path(st, slot) \ {Deepest(st, slot)}
                   [] OTHER              -> Path(st, slot)
-    IN [h |-> r.h, addr |-> IF r.ak = "otheraddr" THEN "other" ELSE "ccm", flds |-> flds, anodes |-> an,
+    IN [h |-> r.h, sealed |-> r.w = "canon", hroot |-> Root(S), addr |-> IF r.ak = "otheraddr" THEN "other" ELSE "ccm", flds |-> flds, anodes |-> an,
         slot |-> slot, snodes |-> sn, m |-> r.m]
 
 (* the decision as coded *****************************************************)
-Confirmed(h) == h <= Best /\ Best - h >= Wait - 1
+Confirmed(h) == IF Mode = "header" THEN h >= G0 ELSE h <= Best /\ Best - h >= Wait - 1
 Accept(c) ==
     /\ Confirmed(c.h)
     /\ c.h >= G0                                   \* a canonical header is stored at that height
+    /\ (Mode = "header" => c.sealed)               \* quorum: proposer seal and enough committed seals of tracked validators
     /\ c.addr = "ccm"                              \* address field = registered contract
-    /\ LET av == Ver(Root(CanonState(c.h)), KCcm, c.anodes)
+    /\ LET av == Ver(IF Mode = "header" THEN c.hroot ELSE Root(CanonState(c.h)), KCcm, c.anodes)
        IN /\ av.ok
           /\ av.val = c.flds                        \* rlp(claimed fields) = proven account leaf
     /\ LET sv == Ver(Root(c.flds.sroot), c.slot, c.snodes)
@@ -141,12 +148,12 @@ Accept(c) ==
 
 (* monitor ********************************************************************)
 \* the deposit of message m is in the registered contract's storage in the canonical state at height h
-TrueAt(h, m) == h \in G0..Best /\ \E s \in Keys2 : CanonState(h)[KCcm].sroot[s] = Word(Keccak(m))
-Honest(r) == /\ r.w = "canon" /\ r.h \in G0..Best
+TrueAt(h, m) == (h \in G0..Best \/ (Mode = "header" /\ h >= G0)) /\ \E s \in Keys2 : CanonState(h)[KCcm].sroot[s] = Word(Keccak(m))
+Honest(r) == /\ r.w = "canon" /\ (r.h \in G0..Best \/ (Mode = "header" /\ r.h >= G0))
              /\ r.ak \in {"valid", "reordered", "garbage"}
              /\ r.sk \in {"valid", "reordered", "garbage", "slot2", "slot3"}
              /\ CanonState(r.h)[KCcm].sroot[Claim(r).slot] = Word(Keccak(r.m))
-Sound(r)    == Accept(Claim(r)) => (Confirmed(r.h) /\ TrueAt(r.h, r.m))
+Sound(r)    == Accept(Claim(r)) => (Confirmed(r.h) /\ TrueAt(r.h, r.m) /\ (Mode = "header" => r.w = "canon"))
 Complete(r) == (Honest(r) /\ Confirmed(r.h)) => Accept(Claim(r))
 PropC23 == done => (Sound(row) /\ Complete(row))
 
